@@ -89,9 +89,10 @@ def _cond_number_type_validator(ctx):
 
 
 def _cond_object_init_sets_all(ctx):
-    f = ctx.func("Properties.__call__")
-    src = norm(f.node)
-    return ("for prop in self.props.values()" in src), "placeholders are produced for every declared property"
+    from .rules_g import props_call_model
+    M = ctx.get("props_call_model", lambda c: props_call_model(c))
+    ok = bool(M["placeholders"]) and all(ph["all_declared"] and not ph["guards"] for ph in M["placeholders"])
+    return ok, "placeholders are produced for every declared property"
 
 
 def _cond_multipleof_only(ctx, origin):
